@@ -165,20 +165,24 @@ Definition ends_idle (c : svcase) : bool :=
       end
   end.
 
-Definition check_case (c : c12case) : list nat :=
+Definition spec_first (fuel : nat) (spec : list nat) (sc : svcase) : list nat :=
+  match spec with [] => check_agree_f fuel sc | rs => rs end.
+
+Definition check_case_f (fuel : nat) (c : c12case) : list nat :=
   match c with
-  | C12Seq sc => check_agree sc ++ nodup Nat.eq_dec (spec_seq sc)
-  | C12Walk sc => check_agree sc ++ (if probe_answered sc then [] else [4%nat]) ++ (if ends_idle sc then [] else [6%nat])
+  | C12Seq sc => spec_first fuel (nodup Nat.eq_dec (spec_seq sc)) sc
+  | C12Walk sc => spec_first fuel ((if probe_answered sc then [] else [4%nat]) ++ (if ends_idle sc then [] else [6%nat])) sc
   | C12Method raw r => if opt_eqb pair_bytes_eqb (parse_method raw) r then [] else [1%nat]
   | C12Shape raw k => if mkind_eqb (kind_of_method raw) k then [] else [1%nat]
   end.
 
-Fixpoint find_bad_from (i : nat) (cs : list c12case) : list (nat * list nat) :=
+Fixpoint find_bad_fuel (fuel i : nat) (cs : list c12case) : list (nat * list nat) :=
   match cs with
   | [] => []
   | c :: rest =>
-      match check_case c with
-      | [] => find_bad_from (S i) rest
-      | rs => (i, rs) :: find_bad_from (S i) rest
+      match check_case_f fuel c with
+      | [] => find_bad_fuel fuel (S i) rest
+      | rs => (i, rs) :: find_bad_fuel fuel (S i) rest
       end
   end.
+Definition find_bad_from := find_bad_fuel explore_fuel.
